@@ -31,3 +31,18 @@ Definition kf_cli_zero_size_marked (c : cli_case) : bool :=
 (* the domain of the C02 theorems: documents the loaders can produce, serialised consistently *)
 Definition case_in_domain (c : script_case) : bool :=
   wf (sc_a c) && wf (sc_b c) && numtext_ok (sc_a c) && numtext_ok (sc_b c) && consistent (sc_a c) (sc_b c).
+
+(* D36: a multiset with a repeated element that is not matched exactly makes WeightedBipartiteMatcher collapse the
+   duplicates (its dictionaries are keyed by node), its bounds widen and repeat_until_tightened never returns.
+   Class on the INPUT: some multiset, at any depth of either document, has two == children. *)
+Fixpoint has_dup (cs : list tree) : bool :=
+  match cs with [] => false | c :: r => existsb (fun d => node_eqb c d) r || has_dup r end.
+Fixpoint has_dup_mset (t : tree) : bool :=
+  match t with
+  | Leaf _ => false
+  | Lst _ _ cs => existsb has_dup_mset cs
+  | Kvp _ k v => has_dup_mset k || has_dup_mset v
+  | MSet _ cs => has_dup cs || existsb has_dup_mset cs
+  | FDict cs => existsb has_dup_mset cs
+  end.
+Definition kf_multiset_duplicates (a b : tree) : bool := has_dup_mset a || has_dup_mset b.
